@@ -12,6 +12,7 @@ if [ "$tier" = thorough ]; then export STANDIN_EXEC_TEXT=${STANDIN_EXEC_TEXT:-4}
 # the case stand-in multiplies every text by its case variants: one rune less at the thorough level
 if [ "$tier" = thorough ] && [ "$4" = case ]; then export STANDIN_EXEC_TEXT=3; fi
 export GOGC=400
+if [ "$tier" = thorough ]; then STANDIN_TIMEOUT=7000; else STANDIN_TIMEOUT=1500; fi
 case "$which" in
   mirror)  test=TestStandinMirror;  obl="regexp2.executeDefault#bounded-standin-mirror";;
   case)    test=TestStandinCase;    obl="regexp2.executeDefault#bounded-standin-case";;
@@ -29,7 +30,7 @@ PY
 tmp=$(mktemp -d); trap 'rm -rf "$tmp"' EXIT
 printf '{"Replace":{"%s/zz_verif_standin_test.go":"%s/standins/facts_standin_test.go","%s/zz_verif_standin2_test.go":"%s/standins/exec_standin_test.go","%s/zz_verif_standin3_test.go":"%s/standins/repl_standin_test.go","%s/zz_verif_standin4_test.go":"%s/standins/groups_standin_test.go"}}' "$REPO" "$HERE" "$REPO" "$HERE" "$REPO" "$HERE" "$REPO" "$HERE" > "$tmp/ov.json"
 t0=$(date +%s.%N)
-res=$(cd "$REPO" && go test -tags verif -overlay "$tmp/ov.json" -vet=off -count=1 -timeout 7000s -v -run "$test\$" . 2>&1)
+res=$(cd "$REPO" && go test -tags verif -overlay "$tmp/ov.json" -vet=off -count=1 -timeout ${STANDIN_TIMEOUT}s -v -run "$test\$" . 2>&1)
 rc=$?
 secs=$(echo "$(date +%s.%N) - $t0" | bc)
 cases=$(echo "$res" | grep -o 'STANDIN-CASES [0-9]*' | awk '{print $2}'); cases=${cases:-0}
